@@ -6,7 +6,7 @@ ROOT = os.path.dirname(os.path.dirname(os.path.abspath(__file__)))
 COQ = os.path.join(ROOT, "coq")
 WORK = os.path.join(ROOT, "work")
 HARNESS = os.path.join(ROOT, "harness")
-DRIVER = os.path.join(ROOT, "ocaml", "_build", "svdriver")
+def driver_path(prop): return os.path.join(ROOT, "ocaml", "_build", prop.lower(), "svdriver")
 ENV = dict(os.environ, CARGO_NET_OFFLINE="true")
 
 ALLOWED_AXIOMS = {
@@ -64,7 +64,7 @@ def proof_gate(prop, thorough=False):
     res = dict(ok=True, theorems=[], discharged=0, failures=[], axioms={})
     os.makedirs(WORK, exist_ok=True)
     target = f"theories/Props/{prop}.vo"
-    rc, so, se = run([os.path.join(COQ, "mk.sh"), target, "theories/Extract/Extract.vo"], timeout=3000)
+    rc, so, se = run([os.path.join(COQ, "mk.sh"), target, f"theories/Extract/{prop}.vo"], timeout=3000)
     if rc != 0:
         res["ok"] = False
         res["failures"].append("coq build failed: " + (se or so)[-1500:])
@@ -112,12 +112,18 @@ def proof_gate(prop, thorough=False):
             res["ok"] = False; res["failures"].append("coqchk failed: " + (se3 or so3)[-600:])
     return res
 
-def build_driver():
-    src = [os.path.join(COQ, "svmodel.ml"), os.path.join(ROOT, "ocaml", "conv.ml"), os.path.join(ROOT, "ocaml", "driver.ml")]
-    if os.path.exists(DRIVER) and all(os.path.getmtime(DRIVER) >= os.path.getmtime(s) for s in src if os.path.exists(s)):
-        return
-    rc, so, se = run([os.path.join(ROOT, "ocaml", "build.sh")], timeout=900)
+def build_driver(prop):
+    lp = prop.lower()
+    drv = driver_path(prop)
+    src = [os.path.join(COQ, lp + "_model.ml"), os.path.join(ROOT, "ocaml", "conv.ml"), os.path.join(ROOT, "ocaml", f"d_{lp}.ml")]
+    if not os.path.exists(src[0]):
+        rc, so, se = run([os.path.join(COQ, "mk.sh"), f"theories/Extract/{prop}.vo"], timeout=3000)
+        if rc != 0: raise CheckError("extraction failed: " + (se or so)[-1500:])
+    if os.path.exists(drv) and all(os.path.getmtime(drv) >= os.path.getmtime(x) for x in src):
+        return drv
+    rc, so, se = run([os.path.join(ROOT, "ocaml", "build.sh"), lp], timeout=900)
     if rc != 0: raise CheckError("ocaml driver build failed: " + (se or so)[-1500:])
+    return drv
 
 # ---------------------------------------------------------------- implementation
 def build_harness(crate, release=False):
@@ -140,22 +146,22 @@ def run_harness(binary, prop, tier, seed, extra=(), timeout=3000, env=None):
         out.append((c, o))
     return out
 
-def run_model(cases):
-    build_driver()
+def run_model(prop, cases):
+    drv = build_driver(prop)
     inp = "\n".join(cases) + "\n"
-    rc, so, se = run([DRIVER], inp=inp, timeout=3000)
+    rc, so, se = run([drv], inp=inp, timeout=3000)
     if rc != 0: raise CheckError("model driver failed: " + se[-1000:])
     res = so.split("\n")
     if res and res[-1] == "": res.pop()
     if len(res) != len(cases): raise CheckError(f"model driver returned {len(res)} lines for {len(cases)} cases")
     return res
 
-def coq_crosscheck(prop, goals):
+def coq_crosscheck(prop, goals, imports):
     """goals: list of Coq propositions (strings) that must hold by vm_compute; returns list of failing indices"""
     if not goals: return []
     v = os.path.join(WORK, f"cases_{prop}.v")
     with open(v, "w") as f:
-        f.write("From Coq Require Import NArith ZArith List String. Import ListNotations.\nFrom SV Require Import Extract.Imports.\nOpen Scope N_scope.\n")
+        f.write("From Coq Require Import NArith ZArith List String. Import ListNotations.\n" + imports + "\nOpen Scope N_scope.\n")
         for i, g in enumerate(goals):
             f.write(f'Goal True. idtac "@@ {i}". exact I. Qed.\nGoal {g}.\nProof. vm_compute. first [reflexivity | idtac "@@FAIL {i}"]. Abort.\n')
     rc, so, se = run(["coqc", "-noglob", "-Q", os.path.join(COQ, "theories"), "SV", v], cwd=WORK, timeout=1200)
